@@ -437,6 +437,15 @@ func checkC01(c *Ctx) {
 	exprS5(emitTwice)
 	exprS6(emitTwice)
 	c01DataDriven(c)
+	if c.Thorough() {
+		// thorough: the whole S1 stratum (every operator over every pair of atoms) and the function
+		// stratum in every syntactic position, not only in a print.
+		for _, p := range pos[1:] {
+			p := p
+			exprS1(func(st string, e *E) { run(st+"@"+p.name, p, e, 0) })
+			exprS5(func(st string, e *E) { run(st+"@"+p.name, p, e, 0) })
+		}
+	}
 	// S3: every syntactic position x lexer-stressing shapes
 	for _, p := range pos {
 		for _, e := range lexShapes() {
